@@ -5,7 +5,8 @@ import crash as C
 from props.c02 import allowed_states
 
 LEVEL = "fault_enumeration"
-COQ_TARGETS = ()
+COQ_TARGETS = ("props/C13.vo",)
+THEOREMS = ["C13_poison_sticky_partial"]
 WRITE_OPS = ("put", "del", "delw", "batch", "clear", "persist", "take", "fu", "uf")
 
 
@@ -96,6 +97,8 @@ def fault_workload(args):
 
 
 def run(rep, tier, seed, build):
+    from common import proof_audit
+    obl, dis, pproblems = proof_audit("props/C13.v", THEOREMS, build["coq"])
     n = 20 if tier == "quick" else 300
     results = pmap(fault_workload, [(i, seed, tier) for i in range(n)])
     bad = [r_ for r_ in results if r_["problems"]]
@@ -118,7 +121,10 @@ def run(rep, tier, seed, build):
                              "checked: the operation reports an error, no later write is acknowledged, and after exit (with and without "
                              "clean drop) reopen yields the acknowledged prefix or that plus the complete failed operation",
                         samples=[r_["sample"] for r_ in results if r_.get("sample")][:3], workloads=n, fault_points=runs,
-                        fault_kind_histogram=dict(kinds), error_surface_histogram=dict(surf), disagreements_checked=len(bad))
+                        fault_kind_histogram=dict(kinds), error_surface_histogram=dict(surf), disagreements_checked=len(bad),
+                        partial_theorems=THEOREMS, partial_theorems_discharged=dis, partial_theorem_problems=pproblems)
+    if pproblems and not rep.violations:
+        rep.violation("# C13: partial theorem no longer checks\n" + "\n".join(pproblems) + "\n", suffix="no-failing-input-found")
     rep.assumptions = ["faults are injected on journal files only (the property is about journal I/O)", "single-threaded workloads; "
                        "multi-writer fault runs are part of the thorough tier of C14"]
 
